@@ -139,6 +139,12 @@ binary(struct expr *expr, enum tokenkind op, struct expr *l, struct expr *r)
 #endif
 }
 
+static bool
+consttruth(struct expr *e)
+{
+	return e->type->prop & PROPFLOAT ? e->u.constant.f != 0 : e->u.constant.u != 0;
+}
+
 struct expr *
 eval(struct expr *expr)
 {
@@ -228,8 +234,27 @@ eval(struct expr *expr)
 		break;
 	case EXPRBINARY:
 		l = eval(expr->u.binary.l);
-		r = eval(expr->u.binary.r);
 		expr->u.binary.l = l;
+		if (expr->op == TLOR || expr->op == TLAND) {
+			/* the right operand is evaluated only if the left one does not decide (6.5.13p4, 6.5.14p4) */
+			if (l->kind != EXPRCONST) {
+				expr->u.binary.r = eval(expr->u.binary.r);
+				break;
+			}
+			if (consttruth(l) == (expr->op == TLOR)) {
+				expr->kind = EXPRCONST;
+				expr->u.constant.u = expr->op == TLOR;
+				break;
+			}
+			r = eval(expr->u.binary.r);
+			expr->u.binary.r = r;
+			if (r->kind != EXPRCONST)
+				break;
+			expr->kind = EXPRCONST;
+			expr->u.constant.u = consttruth(r);
+			break;
+		}
+		r = eval(expr->u.binary.r);
 		expr->u.binary.r = r;
 		switch (expr->op) {
 		case TADD:
@@ -248,14 +273,6 @@ eval(struct expr *expr)
 				expr->u.binary.l = l->u.binary.l;
 			}
 			break;
-		case TLOR:
-			if (l->kind != EXPRCONST)
-				break;
-			return l->u.constant.u ? l : r;
-		case TLAND:
-			if (l->kind != EXPRCONST)
-				break;
-			return l->u.constant.u ? r : l;
 		default:
 			if (l->kind != EXPRCONST || r->kind != EXPRCONST)
 				break;
